@@ -10,12 +10,47 @@ from ..shims import TOKENS
 from ..fixture import build, mkpre, snapshot, diff_snapshots, Rec, Unreachable
 
 
-def prepare(pre):
-    """Builder + recorder in the requested pre-state for the current mode."""
+def prepare(pre, history=False):
+    """Builder + recorder in the requested pre-state for the current mode. history=True (or a cell
+    made by history_variants): also the symbolic run reaches the pre-state through public calls from
+    a fresh builder (a true history: caches and bookkeeping are whatever those calls left behind);
+    pre-states that no public history reaches are pruned."""
     if MODE.symbolic:
         TOKENS.clear()
+        if history or MODE.history_pre:
+            from ..fixture import Unreachable
+            from crosshair.util import IgnoreAttempt
+            try:
+                return build(pre, "public-unchecked")
+            except Unreachable as u:
+                raise IgnoreAttempt(f"pre-state not reachable through public calls: {u}")
         return build(pre, "private")
     return build(pre, "public")
+
+
+def history_variants(cells, keep=None):
+    """Copies of inductive-step cells whose pre-state is reached through public calls from a fresh
+    builder instead of being installed directly."""
+    import dataclasses
+    import functools
+
+    def wrap(fn):
+        @functools.wraps(fn)
+        def h(*a, **kw):
+            MODE.history_pre = True
+            try:
+                return fn(*a, **kw)
+            finally:
+                MODE.history_pre = False
+        return h
+
+    out = []
+    for c in cells:
+        if keep is None or keep(c):
+            out.append(dataclasses.replace(
+                c, name=c.name + "|via-public-history", fn=wrap(c.fn), must_reach=(),
+                note=(c.note + "; " if c.note else "") + "pre-state reached through public calls (true history)"))
+    return out
 
 
 def tokens():
